@@ -95,9 +95,23 @@ func WriteBinaryLengthPrefixed(o interface{}, w io.Writer, n *int, err *error) {
 	WriteTo(buf.Bytes(), w, n, err)
 }
 
+// unmarshalJSON is json.Unmarshal into an interface{}, except that numbers are kept as
+// json.Number: going through float64 rounds every integer above 2^53.
+func unmarshalJSON(bz []byte, object *interface{}) error {
+	dec := json.NewDecoder(bytes.NewReader(bz))
+	dec.UseNumber()
+	if err := dec.Decode(object); err != nil {
+		return err
+	}
+	if _, err := dec.Token(); err != io.EOF {
+		return errors.New("invalid character after top-level value")
+	}
+	return nil
+}
+
 func ReadJSON(o interface{}, bytes []byte, err *error) interface{} {
 	var object interface{}
-	*err = json.Unmarshal(bytes, &object)
+	*err = unmarshalJSON(bytes, &object)
 	if *err != nil {
 		return o
 	}
@@ -107,7 +121,7 @@ func ReadJSON(o interface{}, bytes []byte, err *error) interface{} {
 
 func ReadJSONPtr(o interface{}, bytes []byte, err *error) interface{} {
 	var object interface{}
-	*err = json.Unmarshal(bytes, &object)
+	*err = unmarshalJSON(bytes, &object)
 	if *err != nil {
 		return o
 	}
